@@ -11,6 +11,7 @@ from bfsa.terms import subterms
 
 from rules import bec2, bf3
 from rules.exactread import rule_exact_reads
+from rules import stackrt, stacktamper
 
 LEVEL = "other"
 
@@ -59,4 +60,5 @@ def run(prog, chk, tier):
     rule_exact_reads(prog, chk, "C04")
     hdr = bec2.header_reader_rules(prog, chk, "C04")
     bec2.key_flow_rules(prog, chk, "C04", hdr)
+    stackrt.guarded(chk, "C04.tamper-scenarios", stacktamper.tamper_rules, prog, chk, "C04", tier)
     chk.assume("AES-CBC-MAC under an unknown key is unforgeable; the BEC2 header itself is protected per block (CRC inside the AES container / ECIES), not by a MAC")
